@@ -54,6 +54,8 @@ type Image struct {
 
 // Item is one painting operation: a path that is filled, then stroked, or an image.
 type Item struct {
+	// M, when set, maps the item's own coordinate system to document coordinates: the path is filled and stroked (width, dashes in its own units) in its own system and the result is transformed, which is how SVG defines painting under a transform.
+	M       *oracle.Mat
 	Segs    []oracle.Seg
 	Fill    *Paint
 	EvenOdd bool
